@@ -448,17 +448,31 @@ def sites_in(f: FuncInfo) -> List[Dict[str, object]]:
         if not isinstance(r, ast.Raise):
             continue
         direct = enclosing_tests(f.node, r)
-        if not direct:
-            continue
-        t, pol = direct[0]
-        holder = None
-        cur_ = r
-        while id(cur_) in pm_:
-            cur_ = pm_[id(cur_)]
-            if isinstance(cur_, ast.If) and cur_.test is t:
-                holder = cur_
+        par_ = pm_.get(id(r))
+        own_blk = next((getattr(par_, fld_) for fld_ in ("body", "orelse", "finalbody") if isinstance(getattr(par_, fld_, None), list) and
+                        any(x_ is r for x_ in getattr(par_, fld_))), []) if par_ is not None else []
+        jump_guards = []
+        for sib_ in own_blk:
+            if sib_ is r:
                 break
-        tests = [(t, pol)] + (path_conditions(f.node, holder) if holder is not None else direct[1:])
+            if isinstance(sib_, ast.If) and sib_.body and isinstance(sib_.body[-1], (ast.Return, ast.Continue, ast.Break)) and not sib_.orelse:
+                jump_guards.append(sib_)
+        if jump_guards and not (isinstance(par_, ast.If) and direct):
+            # `if ok: continue` (or return / break) followed by an unconditional raise in the same block is `if not ok: raise`
+            t, pol = jump_guards[-1].test, False
+            tests = [(t, pol)] + [x_ for x_ in path_conditions(f.node, r) if x_[0] is not t]
+        else:
+            if not direct:
+                continue
+            t, pol = direct[0]
+            holder = None
+            cur_ = r
+            while id(cur_) in pm_:
+                cur_ = pm_[id(cur_)]
+                if isinstance(cur_, ast.If) and cur_.test is t:
+                    holder = cur_
+                    break
+            tests = [(t, pol)] + (path_conditions(f.node, holder) if holder is not None else direct[1:])
         key = (id(t), pol)
         if key in seen:
             continue
